@@ -136,7 +136,7 @@ def node_activated(graph, state, n, END):
 
 def nodes_keyed_by_name(graph):
     """Object-model fact (proved for Graph._build_nodes_dict): the node map is keyed by node name."""
-    return all(graph._nodes[k].name == k for k in graph._nodes)
+    return forall_keys(lambda k: k not in graph._nodes or graph._nodes[k].name == k, graph._nodes)
 
 
 def gated_name(graph, n):
@@ -199,3 +199,8 @@ def targets_blocked(g, blocked, END):
 def gate_targets_ok(g, END):
     """Object-model fact: targets of a gate are node names (str) or END (gate constructors normalise them)."""
     return not is_gate(g) or targets_are_names(g, END)
+
+
+def gates_wellformed(graph, END):
+    """Object-model fact about graphs built by the constructor: every gate's targets are node names or END."""
+    return forall_keys(lambda k: k not in graph._nodes or gate_targets_ok(graph._nodes[k], END), graph._nodes)
